@@ -400,6 +400,13 @@ def runLine (st : Session) (line : String) : Session × String := Id.run do
     let ts := tsOf w 1
     let outs := (w.toList.drop 5).map fun t => showPos (ts.position (fb t))
     return (st, showOptDur ts.totalDuration ++ " " ++ " ".intercalate outs)
+  | "prep" =>
+    let ts := tsOf w 1
+    let n := w[6]!.toNat!
+    let bt := (List.range n).map fun k => fb w[7 + k]!
+    match prepareFrame ts bt (fb w[5]!) with
+    | none => return (st, "-")
+    | some (t, i, o) => return (st, s!"{bits t} {i} {if o then 1 else 0}")
   | "possweep" =>
     let ts := tsOf w 1
     let start := w[5]!.toNat!
